@@ -109,7 +109,7 @@ PROPS = {
     "C11": dict(
         cases_mod="CasesText", check_fn="check_C11", shard=200,
         rule="values (years +-1, +-99, +-100, +-9999, +-10000, 123456; weeks 52/53/1; every weekday/month; hours 0/11/12/13/23; offsets incl. seconds) x patterns generated from the item grammar: every symbol the type understands x widths 1..=10, literal runs (ASCII and multi-byte), quoted text with embedded apostrophes, '' outside quotes; a quarter of the cases are single-field patterns. The harness sends the item list; the oracle re-derives the pattern text (unparse) and the expected output (PatternSpec.render). Non-trivial: every case.",
-        explanation="see props/C11.v for what is proved; figures describe the differential run.",
+        explanation="Proved for the model (props/C11.v, PatternProofs.v): for every value, offset and item list of the grammar swf, format(unparse items) is Ok and equals the concatenation of the items rendered by the documented table (PatternSpec.render): the tokenizer theorem (parts of the printed pattern = the items' parts) composed with the per-symbol theorems (all 19 symbols x every width). The run ties model and implementation and evaluates the same specification on the implementation's output.",
         trusted_base=TB_COMMON + ["serde / serde_json (C20) from the offline cargo cache"], assumptions=ASSUME_COMMON + ["the current year read by the two-letter year parser is a parameter (now_year) passed by the harness"],
     ),
     "C12": dict(
